@@ -146,7 +146,7 @@ def mk_scalar_index(t, dims, idx):
 RHS_KINDS = ['scalar', 'tensor', 'slice', 'expr', 'evalexpr']
 
 
-def mk_write(t, dims, axes, op, rhs, src_axes=None, src_dims=None, noalias=False, same_tensor=False, twice=False):
+def mk_write(t, dims, axes, op, rhs, src_axes=None, src_dims=None, noalias=False, same_tensor=False, twice=False, rhs_expr=False, family=None):
     """a(view) op= rhs with a as inout; the reference applies the operator on exactly the selected cells of a copy"""
     cell, per = CELL[t]
     assert per == 1
@@ -198,32 +198,34 @@ def mk_write(t, dims, axes, op, rhs, src_axes=None, src_dims=None, noalias=False
         wparams2 = ''.join(', int %s' % ren[a] for a in sargn)
         regions.append({'name': 'sidx', 'ety': 'i32', 'cells': n, 'kind': 'raw', 'role': 'in', 'init': 'ints', 'ints': ssel})
         if same_tensor:
-            regions.append(rreg('a0', t, prod(dims), role='in', init='sym', ns='a'))   # snapshot of the original contents
-            rparams += ', const %s* b, const int* sidx' % ct
-            rargs += ['a0', 'sidx']
+            rparams += ', const int* sidx'
+            rargs += ['sidx']
         else:
             regions.append(treg('b', t, src_dims))
             wparams += ', const %s& b' % tensor_t(t, src_dims); rparams += ', const %s* b, const int* sidx' % ct
             wargs.append('b'); rargs += ['b', 'sidx']
-        rhs_w, rhs_r = scall, 'b[sidx[k]]'
+        rhs_w, rhs_r = scall, ('snap[k]' if same_tensor else 'b[sidx[k]]')
+        if rhs_expr:
+            rhs_w, rhs_r = '(%s + %s)' % (scall, scall), '(%s + %s)' % (rhs_r, rhs_r)
         params2 = wparams2
     else:
         raise ValueError(rhs)
     stmt = '%s %s %s;' % (lhs, op, rhs_w)
     if twice:
-        stmt = 'auto v = %s; v %s %s; v %s %s;' % (lhs, op, rhs_w, op, rhs_w)
+        na = '.noalias()' if noalias else ''
+        stmt = 'auto v = %s; v%s %s %s; v%s %s %s;' % (call, na, op, rhs_w, na, op, rhs_w)   # noalias() is re-armed for each assignment
     wit = 'extern "C" void @W@(%s%s%s){ %s }' % (wparams, params, params2 if rhs == 'slice' else '', stmt)
     body = 'for(int k=0;k<%d;k++){ %s& x = a[idx[k]]; %s y = %s; %s; }' % (n, ct, ct, rhs_r, cop)
+    if rhs == 'slice' and same_tensor:   # snapshot semantics: the whole right-hand side is read before anything is written
+        body = '{ %s snap[%d]; for(int k=0;k<%d;k++) snap[k] = a[sidx[k]]; %s }' % (ct, n, n, body)
     if twice:
         body = body + body
-    if rhs == 'slice' and same_tensor and twice:
-        raise ValueError('unsupported combination')
     ref = 'extern "C" void @R@(%s){ %s }' % (rparams, body)
     stages = [{'mod': 'wit', 'fn': '@W@', 'args': wargs + int_args(axes) + (int_args(src_axes) if rhs == 'slice' else [])}, {'mod': 'ref', 'fn': '@R@', 'args': rargs}]
     obl = [{'kind': 'equal', 'a': 'a', 'b': 'aref', 'cells': prod(dims), 'mode': mode}]
-    wid = 'wr_%s_%s_%s_%s_%s%s%s' % (OPS[op], rhs, t, 'x'.join(map(str, dims)), '_'.join(ax.tag() for ax in axes), ('_from_' + '_'.join(ax.tag() for ax in src_axes)) if rhs == 'slice' else '', ('_noalias' if noalias else '') + ('_twice' if twice else ''))
+    wid = 'wr_%s_%s_%s_%s_%s%s%s' % (OPS[op], rhs + ('X' if rhs_expr else '') + ('S' if same_tensor else ''), t, 'x'.join(map(str, dims)), '_'.join(ax.tag() for ax in axes), ('_from_' + '_'.join(ax.tag() for ax in src_axes)) if rhs == 'slice' else '', ('_noalias' if noalias else '') + ('_twice' if twice else ''))
     kinds = '+'.join(sorted(set(ax.kind for ax in axes)))
-    return Witness(wid, 'write.' + rhs + '.' + kinds, {'type': t, 'dims': list(dims), 'axes': [ax.tag() for ax in axes], 'op': op, 'rhs': rhs, 'rank': len(dims), 'noalias': noalias,
+    return Witness(wid, family or ('write.' + rhs + '.' + kinds), {'same_tensor': same_tensor, 'type': t, 'dims': list(dims), 'axes': [ax.tag() for ax in axes], 'op': op, 'rhs': rhs, 'rank': len(dims), 'noalias': noalias,
                                                      'src': [ax.tag() for ax in src_axes] if src_axes else None, 'twice': twice}, wit, ref, regions, stages, obl)
 
 
